@@ -22,6 +22,22 @@ namespace {
   Slot g_arena[k_slots];
   ChaiScript_Basic *g_eng[k_engines] = {};
 
+  // user conversions (C14): From<N> -> To<N>, one pair per N; an engine knows conversion N only if it was registered THERE
+  template<int N> struct From { int v = N; };
+  template<int N> struct To { int v = 0; };
+  template<int N>
+  void add_conv_types(ChaiScript_Basic &c) {
+    const std::string n = std::to_string(N);
+    c.add(user_type<From<N>>(), "From" + n);
+    c.add(user_type<To<N>>(), "To" + n);
+    c.add_global(var(From<N>()), "from" + n);
+    c.add(fun([](const To<N> &t) { return t.v; }), "takes_to" + n);
+  }
+  template<int N>
+  void add_conv(ChaiScript_Basic &c) {
+    c.add(type_conversion<From<N>, To<N>>([](const From<N> &f) { To<N> t; t.v = 100 + f.v; return t; }));
+  }
+
   class Worker {
   public:
     Worker() : m_thread([this] { loop(); }) {}
@@ -89,7 +105,11 @@ namespace {
         } else {
           used[e] = true;
           // constructed on the thread the history names (main or a long-lived worker)
-          on_thread(ws, t, [&] { g_eng[e] = new (g_arena[a].bytes) ChaiScript_Basic(Std_Lib::library(), std::make_unique<Parser_Opt>()); });
+          on_thread(ws, t, [&] {
+            g_eng[e] = new (g_arena[a].bytes) ChaiScript_Basic(Std_Lib::library(), std::make_unique<Parser_Opt>());
+            add_conv_types<1>(*g_eng[e]);
+            add_conv_types<2>(*g_eng[e]);
+          });
         }
       } else if (!g_eng[e]) {
         r = "skip";
@@ -102,6 +122,27 @@ namespace {
             g_eng[e]->eval("var " + n + " = " + std::to_string(e * 1000 + serial));
           } catch (const exception::eval_error &ee) {
             r = ee.reason.find("redefined") != std::string::npos ? "redefined" : "err:" + ee.reason;
+          } catch (const std::exception &ex) {
+            r = std::string("err:") + ex.what();
+          }
+        });
+      } else if (k == "conv") {
+        // register user conversion n ("1" or "2") in this engine only
+        on_thread(ws, t, [&] {
+          try {
+            if (n == "1") { add_conv<1>(*g_eng[e]); } else { add_conv<2>(*g_eng[e]); }
+          } catch (const std::exception &ex) {
+            r = std::string(ex.what()).find("exist") != std::string::npos || std::string(ex.what()).find("onflict") != std::string::npos ? "redefined" : std::string("err:") + ex.what();
+          }
+        });
+      } else if (k == "useconv") {
+        // a call that needs conversion n, made on thread t
+        on_thread(ws, t, [&] {
+          try {
+            const int got = g_eng[e]->eval<int>("takes_to" + n + "(from" + n + ")");
+            r = got == 100 + std::stoi(n) ? "ok" : "wrong:" + std::to_string(got);
+          } catch (const exception::eval_error &) {
+            r = "noconv";
           } catch (const std::exception &ex) {
             r = std::string("err:") + ex.what();
           }
